@@ -516,9 +516,7 @@ impl ProxyState {
             if r.ctype == 22 && r.epoch == 0 {
                 for h in parse_hs(&r.body) {
                     if h.off == 0 && h.flen == h.total && h.body.len() >= 34 {
-                        if h.typ == 1 {
-                            self.cr_seen = h.body[2..34].to_vec();
-                        } else if h.typ == 2 {
+                        if h.typ == 2 {
                             self.sr_seen = h.body[2..34].to_vec();
                         }
                     }
@@ -590,6 +588,16 @@ impl ProxyState {
     fn process_one(&mut self, dir: &str, d0: &[u8]) -> Vec<Vec<u8>> {
         let shifted = self.apply_rseq_shift(dir, d0);
         let d: &[u8] = &shifted;
+        // the client's own random (what it will verify a ServerKeyExchange signature against), before any rewrite
+        for r in parse_records(d) {
+            if r.ctype == 22 && r.epoch == 0 {
+                for h in parse_hs(&r.body) {
+                    if h.typ == 1 && h.off == 0 && h.flen == h.total && h.body.len() >= 34 {
+                        self.cr_seen = h.body[2..34].to_vec();
+                    }
+                }
+            }
+        }
         let base = dgram_label(d);
         // remember the original plaintext handshake messages (content oracle for reassembly checks)
         for r in parse_records(d) {
